@@ -116,7 +116,7 @@ def run (c : Case) : String :=
       s!"res {c.id} trace={renderTrace s.out} donecloses={s.doneCloses} leak={match s.cpc with | .exited => 0 | _ => 1}"
     | "FromChannelBacklog" =>
       -- a buffered channel with a long backlog whose consumer leaves after k values: the reader stops at its next `select`
-      -- (close(done) happens before the teardown returns; RoProps/C17 fromChannel_* : nothing is received once done is closed,
+      -- (close(done) happens before the teardown returns; RoProps/C17.fromChannel_stops_reading, fromChannel_cut: nothing is received once done is closed,
       -- up to the receives the select had already committed to), so what it has not read stays in the channel for the next consumer
       s!"res {c.id} backlog=kept"
     | "Collect" =>
